@@ -125,11 +125,11 @@ def run(ctx):
         raise ToolError(f"only {len(behaviours)} TLC behaviours generated")
     write_ndjson(ctx.path("behaviours.ndjson"), behaviours)
     # ---- 3. replay + random schedules on the real channels -----------------------------------
-    menu = [dict(nin=1, senders=[2]), dict(nin=1, senders=[1, 1]), dict(nin=1, senders=[2, 1]),
+    menu = [dict(nin=1, senders=[2]), dict(nin=1, senders=[1]), dict(nin=1, senders=[1, 1]), dict(nin=1, senders=[2, 1]),
             dict(nin=1, senders=[1, 1, 1]), dict(nin=2, senders=[1, 1]), dict(nin=1, senders=[2, 2]),
             dict(nin=1, pa=True, senders=[2, 1])]
     if not quick:
-        menu += [dict(nin=1, senders=[1]), dict(nin=1, senders=[3, 1]), dict(nin=1, senders=[2, 2, 1]), dict(nin=1, senders=[3, 3]), dict(nin=1, senders=[1, 2, 3]), dict(nin=3, senders=[1, 1]),
+        menu += [dict(nin=1, senders=[3, 1]), dict(nin=1, senders=[2, 2, 1]), dict(nin=1, senders=[3, 3]), dict(nin=1, senders=[1, 2, 3]), dict(nin=3, senders=[1, 1]),
                  dict(nin=2, senders=[2, 1]), dict(nin=1, senders=[3]), dict(nin=2, senders=[1, 1, 1])]
     write_ndjson(ctx.path("menu.ndjson"), menu)
     nrandom = 450 if quick else 8000
@@ -144,6 +144,12 @@ def run(ctx):
                                  "r_lock", "r_incr", "r_gate", "r_wake", "x_lock", "x_wcs", "x_wake"] if res["sites"].get(a, 0) == 0]
     if missing_sites and not res["violations"]:
         raise ToolError(f"vacuity: hook sites never executed on the real code: {missing_sites}")
+    need = ["decr_in_send", "decr_in_sender_drop", "decr_in_receiver_drop", "decr_gate_in_send", "decr_gate_in_sender_drop", "decr_gate_in_receiver_drop",
+            "api_send_err", "api_none", "api_send_ok", "api_got", "partition_aware_channels", "several_gates", "channels_1", "channels_2", "channels_3",
+            "max_handles_per_channel_2"]
+    missing_br = [k for k in need if res["branches"].get(k, 0) == 0]
+    if missing_br and not res["violations"]:
+        raise ToolError(f"vacuity: branch families never executed on the real code: {missing_br}")
     # ---- 4. B2: every real execution is a behaviour of DistChanImpl --------------------------
     traces = read_ndjson(ctx.path("traces.ndjson"))
     groups = {}
@@ -196,7 +202,7 @@ def run(ctx):
         "distinct_real_executions": res["distinct_schedules"],
         "real_steps": res["steps"], "drift_steps": res["drift_steps"],
         "pending_returns": res["pending_returns"], "gate_parks": res["gate_parks"],
-        "hook_sites_hit": res["sites"],
+        "hook_sites_hit": res["sites"], "branch_families_executed": res["branches"],
         "trace_validation_B2": conform,
         "rule": "a case is a complete schedule (TLC behaviour of DistChanImpl or seeded random schedule over the shape menu) executed on the real channels; distinct = distinct <shape, executed <process,label> sequence>",
     }, assumptions=[
